@@ -6,6 +6,7 @@ import (
 	"go/token"
 	"go/types"
 	"os"
+	"sort"
 	"strings"
 
 	"golang.org/x/tools/go/packages"
@@ -13,26 +14,284 @@ import (
 
 func init() { register("C06", checkC06) }
 
-// reviewed map iterations: "<func>|<ranged expression>" -> shape class and reason.
+// reviewed map iterations that the mechanical classifier (mapRangeMechanical) does not discharge:
+// "<func>|<origin of the ranged map>" -> number of such loops, shape class and reason.
+// The origin is RECV/ARGn/local<type of the root variable> plus the selected field path, so
+// renaming a variable or receiver does not change it.
 // S1 = body only writes map entries keyed by the range key / fields reachable from the range value
 // S2 = commutative accumulation (a flag set to a constant)
 // S3 = appended and then sorted with a total order before any other use (checked mechanically)
-// S4 = logging only
 // X  = reasoned exception
-var reviewedMapRanges = map[string]string{
-	"config.Config.ParseTemplates|templateMap":           "S1/S2/S4: each value is rendered from the fixed TemplateData (not from the other entries) and written back through its own pointer; the changed flag is a commutative OR; the second loop only logs",
-	"config.PackageConfig.Initialize|c.Interfaces":        "S1: writes c.Interfaces[key] and fields of the value; reads only the package config, which the loop does not modify",
-	"config.RootConfig.GetPackages|c.Packages":            "X: the key slice is used as a set (patterns for packages.Load, keys of the missing map); interfaces of different packages can never share an output file (InterfaceCollection.Append), and within a package order comes from files and declarations",
-	"config.RootConfig.Initialize|c.Packages":             "S1 + S3: per-package writes keyed by the range key; the recursive-package list collected here is sorted with a total order before use (re-checked mechanically)",
-	"config.mergeStringMaps|src":                          "S1: dest[k] keyed by the range key; recursion on the value pair of the same key",
-	"internal/cmd.RootApp.Run|config.Interfaces":          "S1: missingMap[p][name] keyed by the range key",
-	"internal/cmd.RootApp.Run|missingMap":                 "S4/S2: logs each remaining entry and sets a flag",
-	"internal/cmd.RootApp.Run|missingMap[packagePath]":    "S4/S2: logs each remaining entry and sets a flag",
-	"internal/cmd.RootApp.Run|mockFileToInterfaces":       "X: iterations are independent (each renders and writes only its own file with a generator constructed in the iteration, R06.6); the early error return affects failing runs only, whose exit status is the same whichever file fails first",
-	"internal/cmd.run|v2.Packages":                        "S1: v3.Packages[name] keyed by the range key; only the order of the deprecation report on the terminal depends on iteration order, the v3 file is encoded with sorted keys",
-	"internal/cmd.run|pkgConfig.Interfaces":               "S1: Interfaces[name] keyed by the range key",
-	"template.NewMethodScope|r.importQualifiers":          "S1: set insertion of the range key",
-	"template.Registry.Imports|r.imports":                 "S3: appended, then sorted by Path() (unique map keys) before being returned (re-checked mechanically)",
+type reviewedRange struct {
+	n   int
+	why string
+}
+
+var reviewedMapRanges = map[string]reviewedRange{
+	"config.Config.ParseTemplates|local<map[string]*string>":                       {1, "S1/S2: each value is rendered from the fixed TemplateData (not from the other entries) and written back through its own pointer; the changed flag is a commutative OR"},
+	"config.PackageConfig.Initialize|RECV.Interfaces":                              {1, "S1: writes the entry of the range key and fields of the value; reads only the package config, which the loop does not modify"},
+	"config.RootConfig.GetPackages|RECV.Packages":                                  {1, "X: the key slice is used as a set (patterns for packages.Load, keys of the missing map); interfaces of different packages can never share an output file (InterfaceCollection.Append), and within a package order comes from files and declarations"},
+	"config.RootConfig.Initialize|RECV.Packages":                                   {1, "S1 + S3: per-package writes keyed by the range key; the recursive-package list collected here is sorted with a total order before use (re-checked mechanically)"},
+	"config.mergeStringMaps|ARG0":                                                  {1, "S1: dest[k] keyed by the range key; recursion on the value pair of the same key"},
+	"internal/cmd.RootApp.Run|local<map[string]*internal/cmd.InterfaceCollection>": {1, "X: iterations are independent (each renders and writes only its own file with a generator constructed in the iteration, R06.6); the early error return affects failing runs only, whose exit status is the same whichever file fails first"},
+	"internal/cmd.run|local<internal/cmd.V2RootConfig>.Packages":                   {1, "S1: v3.Packages[name] keyed by the range key; only the order of the deprecation report on the terminal depends on iteration order, the v3 file is encoded with sorted keys"},
+	"internal/cmd.run|local<internal/cmd.V2PackageConfig>.Interfaces":              {1, "S1: Interfaces[name] keyed by the range key"},
+	"template.NewMethodScope|ARG0.importQualifiers":                                {1, "S1: set insertion of the range key (AddName)"},
+	"template.Registry.Imports|RECV.imports":                                       {1, "S3: appended, then sorted by Path() (unique map keys) before being returned (re-checked mechanically)"},
+}
+
+// rangeOrigin names the ranged map independently of local names.
+func rangeOrigin(info *types.Info, fd *ast.FuncDecl, e ast.Expr) string {
+	e = ast.Unparen(e)
+	switch x := e.(type) {
+	case *ast.SelectorExpr:
+		if _, ok := info.Selections[x]; ok {
+			return rangeOrigin(info, fd, x.X) + "." + x.Sel.Name
+		}
+		return "expr<" + shortType(info.TypeOf(e)) + ">"
+	case *ast.IndexExpr:
+		return rangeOrigin(info, fd, x.X) + "[]"
+	case *ast.StarExpr:
+		return rangeOrigin(info, fd, x.X)
+	case *ast.Ident:
+		obj := info.Uses[x]
+		if fd.Recv != nil {
+			for _, f := range fd.Recv.List {
+				for _, n := range f.Names {
+					if info.Defs[n] == obj {
+						return "RECV"
+					}
+				}
+			}
+		}
+		i := 0
+		for _, f := range fd.Type.Params.List {
+			for _, n := range f.Names {
+				if info.Defs[n] == obj {
+					return fmt.Sprintf("ARG%d", i)
+				}
+				i++
+			}
+			if len(f.Names) == 0 {
+				i++
+			}
+		}
+		if obj != nil {
+			t := obj.Type()
+			if p, ok := t.(*types.Pointer); ok {
+				t = p.Elem()
+			}
+			return "local<" + shortType(t) + ">"
+		}
+	}
+	return "expr<" + shortType(info.TypeOf(e)) + ">"
+}
+
+// mapRangeMechanical decides the narrow cases in which a loop over a map is order-insensitive by
+// construction: its body only (a) logs through zerolog, (b) sets a variable to a constant,
+// (c) stores into a map element whose index list contains the range key, the stored value being the
+// range value, a literal or a call-free composite, (d) defines call-free locals, under call-free
+// conditions that read nothing the body writes. Returns the class for the evidence.
+func mapRangeMechanical(info *types.Info, rs *ast.RangeStmt) (string, bool) {
+	var keyObj, valObj types.Object
+	if id, ok := rs.Key.(*ast.Ident); ok && id.Name != "_" {
+		keyObj = objOf(info, id)
+	}
+	if id, ok := rs.Value.(*ast.Ident); ok && id.Name != "_" {
+		valObj = objOf(info, id)
+	}
+	inLoop := func(o types.Object) bool { return o != nil && o.Pos() >= rs.Pos() && o.Pos() < rs.End() }
+	// variables declared outside the loop that the body assigns
+	written := map[types.Object]bool{}
+	ast.Inspect(rs.Body, func(n ast.Node) bool {
+		if as, ok := n.(*ast.AssignStmt); ok {
+			for _, l := range as.Lhs {
+				root := l
+				for {
+					switch x := ast.Unparen(root).(type) {
+					case *ast.IndexExpr:
+						root = x.X
+						continue
+					case *ast.SelectorExpr:
+						root = x.X
+						continue
+					case *ast.StarExpr:
+						root = x.X
+						continue
+					}
+					break
+				}
+				if id, ok := ast.Unparen(root).(*ast.Ident); ok {
+					if o := objOf(info, id); o != nil && !inLoop(o) {
+						written[o] = true
+					}
+				}
+			}
+		}
+		return true
+	})
+	isZerolog := func(fn *types.Func) bool {
+		return fn != nil && fn.Pkg() != nil && fn.Pkg().Path() == "github.com/rs/zerolog"
+	}
+	var pure func(e ast.Expr, readsWritten *bool) bool
+	pure = func(e ast.Expr, readsWritten *bool) bool {
+		ok := true
+		ast.Inspect(e, func(n ast.Node) bool {
+			switch x := n.(type) {
+			case *ast.CallExpr:
+				if tv, isConv := info.Types[x.Fun]; isConv && tv.IsType() {
+					return true
+				}
+				switch calleeName(info, x) {
+				case "builtin.len", "builtin.cap":
+					return true
+				}
+				ok = false
+			case *ast.FuncLit:
+				ok = false
+			case *ast.UnaryExpr:
+				if x.Op == token.ARROW {
+					ok = false
+				}
+			case *ast.Ident:
+				if readsWritten != nil && written[objOf(info, x)] {
+					*readsWritten = true
+				}
+			}
+			return ok
+		})
+		return ok
+	}
+	var logChain func(e ast.Expr) bool
+	logChain = func(e ast.Expr) bool {
+		call, ok := ast.Unparen(e).(*ast.CallExpr)
+		if !ok {
+			t := info.TypeOf(e)
+			return t != nil && strings.Contains(t.String(), "github.com/rs/zerolog.") && pure(e, nil)
+		}
+		if !isZerolog(calleeFunc(info, call)) {
+			return false
+		}
+		for _, a := range call.Args {
+			if !pure(a, nil) && !logChain(a) {
+				return false
+			}
+		}
+		if sel, ok := call.Fun.(*ast.SelectorExpr); ok {
+			if _, isMethod := info.Selections[sel]; isMethod {
+				return logChain(sel.X)
+			}
+		}
+		return true
+	}
+	classes := map[string]bool{}
+	var stmt func(s ast.Stmt) bool
+	list := func(l []ast.Stmt) bool {
+		for _, s := range l {
+			if !stmt(s) {
+				return false
+			}
+		}
+		return true
+	}
+	stmt = func(s ast.Stmt) bool {
+		switch x := s.(type) {
+		case nil:
+			return true
+		case *ast.ExprStmt:
+			if logChain(x.X) {
+				classes["logging"] = true
+				return true
+			}
+			return false
+		case *ast.BranchStmt:
+			return x.Tok == token.CONTINUE && x.Label == nil
+		case *ast.BlockStmt:
+			return list(x.List)
+		case *ast.RangeStmt:
+			rw := false
+			return pure(x.X, &rw) && !rw && list(x.Body.List)
+		case *ast.IfStmt:
+			rw := false
+			if !stmt(x.Init) || !pure(x.Cond, &rw) || rw {
+				return false
+			}
+			return list(x.Body.List) && stmt(x.Else)
+		case *ast.AssignStmt:
+			if x.Tok == token.DEFINE {
+				for _, r := range x.Rhs {
+					rw := false
+					if !(pure(r, &rw) && !rw) && !logChain(r) {
+						return false
+					}
+				}
+				return true
+			}
+			if x.Tok != token.ASSIGN || len(x.Lhs) != 1 || len(x.Rhs) != 1 {
+				return false
+			}
+			rhs := ast.Unparen(x.Rhs[0])
+			switch l := ast.Unparen(x.Lhs[0]).(type) {
+			case *ast.Ident:
+				if tv := info.Types[rhs]; tv.Value != nil && !inLoop(objOf(info, l)) {
+					classes["constant flag"] = true
+					return true
+				}
+				return false
+			case *ast.IndexExpr:
+				keyed := false
+				var cont ast.Expr = l
+				for {
+					ix, ok := ast.Unparen(cont).(*ast.IndexExpr)
+					if !ok {
+						break
+					}
+					if id, ok := ast.Unparen(ix.Index).(*ast.Ident); ok && keyObj != nil && objOf(info, id) == keyObj {
+						keyed = true
+					} else if !pure(ix.Index, nil) {
+						return false
+					}
+					cont = ix.X
+				}
+				if !keyed || !pure(cont, nil) {
+					return false
+				}
+				if _, isMap := info.TypeOf(l.X).Underlying().(*types.Map); !isMap {
+					return false
+				}
+				usesVal := false
+				ast.Inspect(cont, func(n ast.Node) bool {
+					if id, ok := n.(*ast.Ident); ok && valObj != nil && objOf(info, id) == valObj {
+						usesVal = true
+					}
+					return true
+				})
+				if usesVal {
+					return false
+				}
+				rw := false
+				if !pure(rhs, &rw) || rw {
+					return false
+				}
+				classes["store keyed by the range key"] = true
+				return true
+			}
+			return false
+		}
+		return false
+	}
+	if !list(rs.Body.List) {
+		return "", false
+	}
+	var cl []string
+	for k := range classes {
+		cl = append(cl, k)
+	}
+	sort.Strings(cl)
+	if len(cl) == 0 {
+		cl = []string{"no effect"}
+	}
+	return strings.Join(cl, " + "), true
 }
 
 var ambientCalls = map[string]bool{"time.Now": true, "time.Since": true, "os.Getpid": true, "os.Getppid": true, "os.Hostname": true, "os.Environ": true,
@@ -55,6 +314,7 @@ R06.6 one registry per output file: every iteration of the per-file loop in Run 
 	c.Rule("R06.6", 1, "")
 	r := loadRepo(c, packages.LoadSyntax, "", mainPatterns...)
 	listing := os.Getenv("MVCHECK_LIST") != ""
+	seenRanges := map[string]int{}
 	for _, rel := range scopePkgs {
 		p := r.Pkg(rel)
 		info := p.TypesInfo
@@ -75,14 +335,22 @@ R06.6 one registry per output file: every iteration of the per-file loop in Run 
 						if _, isMap := t.Underlying().(*types.Map); !isMap {
 							return true
 						}
-						key := fk + "|" + types.ExprString(x.X)
+						key := fk + "|" + rangeOrigin(info, fd, x.X)
+						if class, ok := mapRangeMechanical(info, x); ok {
+							if listing {
+								fmt.Printf("MECH\t%s\t%s\t%s\n", key, class, r.Pos(x.Pos()))
+							}
+							c.OK("R06.1", "mechanical|"+key, r.Pos(x.Pos()), "order-insensitive by construction: "+class)
+							return true
+						}
 						if listing {
 							fmt.Printf("SITE\t%q: \"\",\t// %s\n", key, r.Pos(x.Pos()))
 						}
-						if why, ok := reviewedMapRanges[key]; ok {
-							c.OK("R06.1", key, r.Pos(x.Pos()), why)
+						seenRanges[key]++
+						if rv, ok := reviewedMapRanges[key]; ok && seenRanges[key] <= rv.n {
+							c.OK("R06.1", key, r.Pos(x.Pos()), rv.why)
 						} else {
-							c.Fail("R06.1", "map-range|"+key, r.Pos(x.Pos()), fmt.Sprintf("%s ranges over the map %s; the site is not in the reviewed table of order-insensitive iterations: if its order can reach a generated file, an exit status or which error is reported, runs of the same input differ", fk, types.ExprString(x.X)))
+							c.Fail("R06.1", "map-range|"+key, r.Pos(x.Pos()), fmt.Sprintf("%s ranges over the map %s; the loop is neither order-insensitive by construction (logging, constant flags, stores keyed by the range key) nor in the reviewed table of order-insensitive iterations: if its order can reach a generated file, an exit status or which error is reported, runs of the same input differ", fk, types.ExprString(x.X)))
 						}
 					case *ast.CallExpr:
 						name := calleeName(info, x)
